@@ -156,6 +156,7 @@ func runProperty(id, tier string, timeout int, overlay map[string][]byte, only s
 	}
 	defer os.RemoveAll(tmp)
 	solver := NewSolver(tmp, timeout)
+	unbound, bound := map[string]string{}, map[string]bool{}
 	for _, pm := range pc.Modules {
 		e := NewEngine()
 		dir := filepath.Join(repoRoot(), pm.Dir)
@@ -222,9 +223,14 @@ func runProperty(id, tier string, timeout int, overlay map[string][]byte, only s
 			}
 			fn := e.fnByKey[k]
 			if fn == nil || fn.Blocks == nil {
-				run.engErrs = append(run.engErrs, fmt.Sprintf("contract %s (%s:%d) does not bind to a function with a body", k, filepath.Base(con.File), con.Line))
+				// a contract of a package that this module only imports: its body is verified when
+				// that package's own module is loaded (it must be, see below)
+				if _, seen := unbound[k]; !seen {
+					unbound[k] = fmt.Sprintf("contract %s (%s:%d) does not bind to a function with a body", k, filepath.Base(con.File), con.Line)
+				}
 				continue
 			}
+			bound[k] = true
 			run.labels[k] = labels
 			run.contract[k] = con
 			run.fns[k] = fn
@@ -246,6 +252,11 @@ func runProperty(id, tier string, timeout int, overlay map[string][]byte, only s
 				run.engErrs = append(run.engErrs, k+": "+r.EngineErr)
 			}
 			run.results = append(run.results, r)
+		}
+	}
+	for _, k := range sortedKeys(unbound) {
+		if !bound[k] {
+			run.engErrs = append(run.engErrs, unbound[k])
 		}
 	}
 	Discharge(solver, run.results, nil)
